@@ -9,6 +9,14 @@ CHECKS = {
          "fallible-call set by call-graph closure + assume-failure path-sensitive CFG exploration; loop-cycle invariance; must-pass-through", "4 C07"),
  "C08": ("decides: container constraint walkers cannot return success from inside the member loop; a checker always exists (descriptor tables + assume-NULL fallback); the error text writes in constraints.c are bounded by the caller's length",
          "AST/CFG rules over return sites, initializer tables, assume-NULL reachability, bounded-index dominance", "4 C08"),
+ "C10": ("decides: a failing pipeline stage always ends in a non-zero exit and never reaches code generation (assume-failure exploration of main); every compiler recursion that follows resolved symbol references is bracketed by the TM_RECURSION mark; the skeleton set shipped for each codec configuration and each activation is link-closed (model of asn1c_fdeps.c over file-dependencies + extracted symbol tables); no enumerator without a case folds into an assertion through a default branch",
+         "assume-failure path exploration; call-graph SCC + reaching-definitions provenance + mark dominance; activation-model link closure; finite constant folding of enum switch defaults", "4 C10"),
+ "C11": ("decides: a fatal status of any fixer function is never dropped on any path (assume -1, follow the value through RET2RVAL copies/switches to the return); each uniqueness checker named by the property is reached from asn1f_process along status-propagating call sites (callback-specific edges through asn1f_recurse_expr)",
+         "status-function fixpoint + assume-failure path-sensitive exploration with copy/const propagation and liveness-normalised states; call-graph path over propagating edges", "4 C11"),
+ "C12": ("decides necessary conditions of deterministic output: hash iteration and directory enumeration only in allow-listed diagnostic/loader functions, no clock/random/pid/environment source, no %p in formats, sort comparators never order by element address",
+         "who-may-call and effect rules over the resolved call graph of the compiler", "4 C12"),
+ "C13": ("decides: the emitters of wire-relevant tables (PER/OER constraints, tag vectors, tag maps) and their callees never read a representation option",
+         "effect (flag-read) analysis over call-graph reachability from anchored emitters", "4 C13"),
  "C14": ("decides for every function-local allocation: freed, handed over or moved on every path to a return, never freed twice, never used when NULL (path-sensitive ownership walk with alias groups, guard flags, heap-or-stack buffers); no self-assigning realloc; free functions handle the three disposal methods and release ctx->ptr; CHOICE decoders record the alternative around the member decode",
          "path-sensitive ownership/typestate analysis over clang CFG facts with helper summaries; switch-case coverage; dominance/must-pass-through", "4 C14"),
  "C15": ("decides: every call-graph cycle reachable from a decoder passes a used stack-limit check on each iteration (SCCs over slot-resolved call graph, guarded-edge removal); decode entry points install a non-zero limit in a context on their own stack on every path",
